@@ -228,7 +228,7 @@ def _descend(sc: Scenario, k: int) -> Any:
 def _body(sc: Scenario, k: int, frame: types.FrameType) -> Any:
     sc.frames.append(frame)
     if k == sc.n - 1:
-        return sc.probe(sc)
+        return _call_probe(sc)
     if sc.cuts[k]:
         import greenlet
 
@@ -250,12 +250,13 @@ async def _corolevel(sc: Scenario, k: int) -> Any:
 
 
 def real_case(n: int, cuts: List[bool], kinds: List[int], entry: int, o: Optional[int], i: Optional[int],
-              limit: Optional[int], limit_frame: Optional[int]) -> Dict[str, Any]:
+              limit: Optional[int], limit_frame: Optional[int], cut_before_probe: bool = False) -> Dict[str, Any]:
     """entry: 0 extract(StackSlice(outer,inner,limit)); 1 extract_since(outer);
     2 extract_until(inner, limit=int|None); 3 extract_until(inner, limit=frame)."""
 
     def probe(sc: Scenario) -> Dict[str, Any]:
         me = sys._getframe(0)
+        sc.frames.append(me)  # anchor index n: the very frame that calls into stackscope
         full = true_stack(me)
         # the scenario's own frames are the tail of the true stack before the probe
         base = len(full) - 1 - sc.n
@@ -296,7 +297,18 @@ def real_case(n: int, cuts: List[bool], kinds: List[int], entry: int, o: Optiona
                 f"expected indices {[idx[id(f)] for f in exp]} of {len(full)}; stackscope frames leaked={len(mine)}"}
 
     sc = Scenario(n, cuts, kinds, probe)
+    sc.cut_before_probe = cut_before_probe
+    if n == 0:
+        return _call_probe(sc)
     return _descend(sc, 0)
+
+
+def _call_probe(sc: "Scenario") -> Any:
+    if getattr(sc, "cut_before_probe", False):
+        import greenlet
+
+        return greenlet.greenlet(lambda: sc.probe(sc)).switch()
+    return sc.probe(sc)
 
 
 def _b_shard(sh: Dict[str, Any]) -> Dict[str, Any]:
@@ -314,22 +326,23 @@ def _b_shard(sh: Dict[str, Any]) -> Dict[str, Any]:
             kinds = [e.choice(f"kind{k}", 3) for k in range(n)]
         entry = e.choice("entry", 4)
         o = i = lim = lf = None
+        # anchors: the n scenario levels and (index n) the frame that itself calls stackscope
         if entry in (0, 1) and e.flag("has_outer"):
-            o = e.choice("outer", n)
+            o = e.choice("outer", n + 1)
         if entry == 0 and e.flag("has_inner"):
-            i = e.choice("inner", n)
+            i = e.choice("inner", n + 1)
         if entry in (2, 3):
-            i = e.choice("inner", n)
+            i = e.choice("inner", n + 1)
         if o is not None and i is not None and o > i:
             e.assume(False)
         if entry in (0, 2) and e.flag("has_limit"):
             lim = 1 + e.choice("limit", n + 2)
         if entry == 3:
-            lf = e.choice("limit_frame", n)
+            lf = e.choice("limit_frame", n + 1)
             if lf > i:
                 e.assume(False)
             # frame-valued limits are restricted to frames reachable by f_back
-            if any(cuts[lf:i]):
+            if any(cuts[lf:min(i, n - 1)]):
                 e.assume(False)
         res = real_case(n, cuts, kinds, entry, o, i, lim, lf)
         reached[0] += 1
@@ -377,7 +390,10 @@ def replay(case: Dict[str, Any]) -> Dict[str, Any]:
     if case["where"] == 2:
         return _replay_foreign(case)
     lim = case["limit"]
-    r = real_case(n, cuts, [0] * n, 0, case["outer"], case["inner"], lim, None)
+    # in the stub model L[n-1] is the frame that calls into stackscope: in the real scenario that is
+    # the probe frame (anchor index = number of levels), so n stub frames = n-1 levels + the probe
+    r = real_case(n - 1, cuts[: max(n - 2, 0)] if n >= 2 else [], [0] * (n - 1), 0, case["outer"], case["inner"], lim, None,
+                  cut_before_probe=(cuts[n - 2] if n >= 2 else False))
     return {"status": "reproduces" if not r["ok"] else "not-reproduced", "detail": r}
 
 
